@@ -284,15 +284,30 @@ class ModelRepeat(dict):
             raise AttributeError(k)
 
 
+class ModelUnknown(Exception):
+    """The model cannot predict this (case is skipped, and counted)."""
+
+
 class ErrorInfo:
-    def __init__(self, exc):
+    def __init__(self, exc, locate=None):
         self.type = type(exc)
         self.value = exc
+        self._locate = locate
+        self._tag = getattr(exc, "_verif_tag", None)
+
+    def _pos(self):
+        if self._locate is None or self._tag is None:
+            raise ModelUnknown("position of an untagged failure")
+        return self._locate(self._tag)
+
+    lineno = property(lambda s: s._pos()[0])
+    offset = property(lambda s: s._pos()[1])
 
 
 class Interp:
     def __init__(self, env, guard_order=STMT_ORDER_IMPL, boolean_attrs=(),
-                 translate=None, on_error_handler=None, source_info=None):
+                 translate=None, on_error_handler=None, source_info=None,
+                 leak=False, locate=None):
         self.log = []
         rec, boom = X.make_callables(self.log)
         base = dict(env)
@@ -311,6 +326,9 @@ class Interp:
         self.switches = []
         self.ev = X.Evaluator(self.lookup, self.log, self._string_convert)
         self.seps = source_info or {}
+        self.leak = leak          # deviation model of known finding K5
+        self.pending = []         # frames abandoned by a propagating error
+        self.locate = locate
 
     # -- scope -------------------------------------------------------------
     def lookup(self, name):
@@ -329,7 +347,7 @@ class Interp:
 
     def eval(self, e, with_default=False):
         if with_default:
-            self.frames.append({"default": DEFAULT})
+            self.frames.append({"default": DEFAULT, "__alias__": True})
             try:
                 return self.ev.ev(e)
             finally:
@@ -395,13 +413,26 @@ class Interp:
             if not isinstance(m.exc, Exception):
                 raise
             del self.out[mark:]
+            if self.leak:
+                # K5: definitions made by the abandoned element are not
+                # undone (the variable context is one flat dictionary):
+                # the innermost value written last stays visible
+                for f in reversed(self.pending):
+                    for n, v in f.items():
+                        for g in reversed(self.frames[:depth]):
+                            if n in g and not g.get("__alias__"):
+                                g[n] = v
+                                break
+                        else:
+                            self.frames[0][n] = v
+            del self.pending[:]
             del self.frames[depth:]
             del self.switches[sw:]
             if self.on_error_handler is not None:
                 self.handler_log.append(type(m.exc).__name__)
             mode, e = st["on-error"]
-            self.frames.append({"error": ErrorInfo(m.exc),
-                                "default": DEFAULT})
+            self.frames.append({"error": ErrorInfo(m.exc, self.locate),
+                                "default": DEFAULT, "__alias__": True})
             try:
                 v = self.ev.ev(e)
             finally:
@@ -418,7 +449,8 @@ class Interp:
                         continue
                     self.out.append(space + aname + "=" + quote + "".join(
                         p[1] for p in parts) + quote)
-                self.out.append(">")
+                self.out.append(">" if el.get("selfclose")
+                                else el.get("close_space", "") + ">")
             s = insert_text(v, "structure" if mode == "structure" else "text",
                             None, self.translate)
             if s is not None:
@@ -448,8 +480,10 @@ class Interp:
                     else:
                         frame[n] = x
             self.guards(el, 0)
-        finally:
-            self.frames.pop()
+        except ModelRaises:
+            self.pending.append(self.frames.pop())
+            raise
+        self.frames.pop()
 
     def guards(self, el, i):
         st = el["stmts"]
@@ -511,8 +545,10 @@ class Interp:
                     self.guards(el, i + 1)
                     if idx < len(items) - 1:
                         self.out.append(sep)
-            finally:
-                self.frames.pop()
+            except ModelRaises:
+                self.pending.append(self.frames.pop())
+                raise
+            self.frames.pop()
             return
         raise ValueError(g)
 
@@ -655,6 +691,24 @@ def separators(nodes):
                 walk(el["children"])
     walk(nodes)
     return seps
+
+
+def locator(source):
+    """tag -> (line, column) of the expression site containing the tag."""
+    text = source.text()
+
+    def locate(tag):
+        for site in source.sites:
+            if "'" + tag + "'" in site["text"] or \
+                    '"' + tag + '"' in site["text"] or \
+                    "&#39;" + tag + "&#39;" in site["text"] or \
+                    "&quot;" + tag + "&quot;" in site["text"]:
+                pos = site["offset"]
+                before = text[:pos]
+                return (before.count("\n") + 1,
+                        pos - before.rfind("\n") - 1)
+        raise ModelUnknown("no site for tag " + tag)
+    return locate
 
 
 def run_model(nodes, env, **kw):
